@@ -471,6 +471,31 @@ func (x *c10Core) rotate() int {
 	return len(x.p.snaps) - 1
 }
 
+// tick: the core's 5-minute bookkeeping (checkBarrierAutoRotate -> barrier.CheckBarrierAutoRotate).  It re-persists the
+// keyring when something was encrypted since the last tick; it must leave the in-memory root key alone.
+func (x *c10Core) tick() int {
+	x.snapShadow()
+	var before []byte
+	if kr, err := x.c.barrier.Keyring(); err == nil && kr != nil {
+		before = append([]byte(nil), kr.RootKey()...)
+	}
+	x.p.Tag(0)
+	x.p.arm()
+	reason, err := x.c.barrier.CheckBarrierAutoRotate(vhRootCtx())
+	x.p.disarm()
+	x.p.Untag()
+	res := c10BarErr(err)
+	if err == nil && reason != "" {
+		res = "due:" + vh.HexS(reason)
+	}
+	if kr, err := x.c.barrier.Keyring(); err == nil && kr != nil && before != nil && !bytes.Equal(kr.RootKey(), before) {
+		res += "!VIOL:CheckBarrierAutoRotate changed the in-memory root key of the core's barrier"
+	}
+	x.lastOp = "tick"
+	x.out.Op(res, "tick")
+	return len(x.p.snaps) - 1
+}
+
 func (x *c10Core) rotroot() int {
 	x.snapShadow()
 	x.p.Tag(0)
@@ -898,7 +923,15 @@ func TestVerifC10Core(t *testing.T) {
 				x.del(r.Pick(dk))
 			case q < 25:
 				x.get(r.Pick(dk))
-			case q < 40:
+			case q < 32:
+				// traffic, then the bookkeeping tick; every crash prefix of its keyring persist
+				x.put(r.Pick(dk), val())
+				n := x.tick()
+				x.dump()
+				if r.Chance(50) || i < 2 {
+					x.crashAll(n, false)
+				}
+			case q < 45:
 				n := x.rotate()
 				x.dump()
 				if r.Chance(50) || i == 0 {
